@@ -341,7 +341,10 @@ class Exec:
         st.env = env2
         try:
             for h in c.exit_hints:
-                g = self.spec_bool(h, st, use_old=True)
+                try:
+                    g = self.spec_bool(h, st, use_old=True)
+                except (OutOfSubset, KeyError, AttributeError):
+                    continue  # hint mentions locals that do not exist on this path
                 self.oblige(st, 'hint', f'exit hint {h}', g, fnode.lineno, h)
                 st.assume(g)
             for exc, cond in c.raises.items():
@@ -397,6 +400,9 @@ class Exec:
     # ------------------------------------------------------------------------------------------
     def spec_val(self, src, st, use_old=False):
         node = parse_expr(src) if isinstance(src, str) else src
+        defs = getattr(self.c, 'defs', None)
+        if defs:
+            node = _Macro(defs).visit(node)
         return self.eval(node, st, spec=True)
 
     def spec_bool(self, src, st, use_old=False):
@@ -1679,6 +1685,18 @@ class Exec:
 
     def ex_Starred(self, n, st, spec):
         raise OutOfSubset('starred expression')
+
+
+class _Macro(ast.NodeTransformer):
+    """contract-level abbreviations: Name -> parsed expression (textual macro)"""
+
+    def __init__(self, defs):
+        self.defs = defs
+
+    def visit_Name(self, node):
+        if node.id in self.defs:
+            return _Macro(self.defs).visit(parse_expr(self.defs[node.id]))
+        return node
 
 
 class EmptyList:
